@@ -125,6 +125,8 @@ pub struct Proto {
     pub discarded: u64,
     pub extra: BTreeMap<String, J>,
     begins: u64,
+    /// engine, seed and options of this worker: merged into every replay record
+    pub replay_base: J,
 }
 
 impl Proto {
@@ -156,6 +158,7 @@ impl Proto {
             discarded: 0,
             extra: BTreeMap::new(),
             begins: 0,
+            replay_base: json!({}),
         }
     }
 
@@ -198,6 +201,13 @@ impl Proto {
     /// is everything needed to re-run the case.
     pub fn fail(&mut self, idx: u64, sig: &str, detail: J, replay: J) {
         self.failures += 1;
+        let mut replay = replay;
+        if let (Some(obj), Some(base)) = (replay.as_object_mut(), self.replay_base.as_object()) {
+            for (k, v) in base {
+                obj.entry(k.clone()).or_insert_with(|| v.clone());
+            }
+            obj.insert("idx".into(), json!(idx));
+        }
         let rec = json!({"idx": idx, "sig": sig, "detail": detail, "replay": replay});
         let _ = writeln!(self.out, "F {rec}");
     }
